@@ -200,6 +200,18 @@ def r2_base_flows(c, facts):
                 some = any(rv.get('variant') == 'Some' for rv, _ in sl['aggrs'])
                 if some and sl['args'] == {2} and not sl['calls']:
                     ok = True
+    if not ok:
+        # `Builder { spec: self.spec, base: Some(base) }`: the returned value is rebuilt with the argument in `base`
+        for bi, b in wb.blocks():
+            for s in b['stmts']:
+                if s['s'] == 'assign' and s['rv']['r'] == 'aggr' and s['rv'].get('adt', '').endswith('Builder') and 'base' in (s['rv'].get('fields') or []) and s['place']['l'] in MF.slice_back(wb, 0, widx)['locals'] | {0}:
+                    op = s['rv']['ops'][s['rv']['fields'].index('base')]
+                    if 'l' in op:
+                        sl = MF.slice_back(wb, op['l'], widx)
+                        some = any(rv.get('variant') == 'Some' for rv, _ in sl['aggrs'])
+                        others = [f for f, o in zip(s['rv']['fields'], s['rv']['ops']) if f != 'base' and not ('l' in o and 1 in MF.slice_back(wb, o['l'], widx)['args'] | ({1} if o['l'] == 1 else set()))]
+                        if some and sl['args'] == {2} and not sl['calls'] and not others:
+                            ok = True
     if ok:
         c.ok(R, {'with_base': 'self.base = Some(move base), no call in between'})
     else:
